@@ -32,6 +32,20 @@ CLAIMED = {
         technique="Lean 4 invariant proofs by induction over op sequences, generic in the float arithmetic; bit-exact differential correspondence",
         design="DESIGN.md §5 C08",
     ),
+    "C15": dict(
+        text="Lean 4 theorems (AQ.Props.C15) prove for ALL header lists and all 256 byte values: validator accepts => WellFormed (spec "
+             "written from the property text), not WellFormed => H3_MESSAGE_ERROR, the exact characterisation of acceptance (incl. "
+             "content-length grammar = CPython int(), differing duplicates rejected), no header event on an error path and every emitted "
+             "header block WellFormed, and by induction over stream op sequences: an ended event implies every declared content-length "
+             "equals the body bytes delivered (for FINs arriving with a complete frame / at a DATA frame end / alone; the two remaining "
+             "FIN placements are recorded findings with counterexample theorems). Model tied to h3/connection.py by differential "
+             "correspondence (all 256 single bytes, boundary-alphabet lists, pseudo-header subsets/orders, content-length spellings x "
+             "body splits, real H3Connection + pylsqpack for the stream steps).",
+        note="Trusted: Lean kernel; standard axioms; correspondence harness (harness/impl_h3validate.py); QPACK (pylsqpack) decoding "
+             "is outside the model (decoded header lists are inputs); stream model covers well-framed input (C14/C16 cover the parser).",
+        technique="Lean 4 decision-logic + invariant proofs over all header lists / op sequences; differential correspondence",
+        design="DESIGN.md §5 C15",
+    ),
 }
 NOT_YET = "machinery for this property is still under construction in this round (model/proofs/correspondence incomplete); not claimed"
 
